@@ -310,7 +310,7 @@ fn run(ctx: &mut Ctx) {
     let ok: Vec<usize> = (0..tpl.len()).filter(|i| !tpl[*i].2).collect();
     let bad: Vec<usize> = (0..tpl.len()).filter(|i| tpl[*i].2).collect();
     let ins = inputs();
-    let draws = ctx.tier.of(3, 40);
+    let draws = ctx.tier.of(40, 400);
     // every subset and position of failing rules for n <= 6
     for n in 0..=6usize {
         for mask in 0..(1u32 << n) {
@@ -333,7 +333,7 @@ fn run(ctx: &mut Ctx) {
     }
     // input-dependent rules x every input shape
     for facts in &ins {
-        for _ in 0..ctx.tier.of(20, 300) {
+        for _ in 0..ctx.tier.of(300, 3_000) {
             let n = 1 + rng.below(8);
             let mut rules = vec![];
             let mut labels = vec![];
@@ -352,7 +352,7 @@ fn run(ctx: &mut Ctx) {
         }
     }
     // injected user-function failures at each invocation index
-    for _ in 0..ctx.tier.of(300, 6_000) {
+    for _ in 0..ctx.tier.of(5_000, 50_000) {
         let n = 2 + rng.below(6);
         let mut rules = vec![];
         let mut labels = vec![];
@@ -368,7 +368,7 @@ fn run(ctx: &mut Ctx) {
         }
         judge_ruleset(ctx, &rules, &labels, &ins[0], plan, "injected-function-failures");
     }
-    for _ in 0..ctx.tier.of(20, 300) {
+    for _ in 0..ctx.tier.of(300, 3_000) {
         serializable_inputs(ctx, &mut rng);
     }
     ctx.rng = rng;
@@ -383,7 +383,7 @@ fn finish(m: &Merged, tier: Tier) -> Finish {
         ..Default::default()
     };
     f.floors.push(floor(format!("(n, failing subset) patterns covered: {subsets}/127"), subsets == 127));
-    f.floors.push(floor(format!("singleton isolation checks: {}", m.c("isolation-checks")), m.c("isolation-checks") >= tier.of(3_000, 30_000)));
+    f.floors.push(floor(format!("singleton isolation checks: {}", m.c("isolation-checks")), m.c("isolation-checks") >= tier.of(50_000, 500_000)));
     f.floors.push(floor(format!("serializable input kinds: {}", m.prefix_count("serializable:")), m.prefix_count("serializable:") >= 13));
     f.floors.push(floor(format!("whole-call failures on unserializable input: {}", m.c("serializable:whole-call-failed-because-input-unserializable")), m.c("serializable:whole-call-failed-because-input-unserializable") >= 20));
     f.extras.insert("families".into(), json!(m.prefix_map("family:")));
